@@ -711,9 +711,9 @@ fn run_inner(args: &Args) -> i32 {
     let rep = Report::new("C19", &args.tier, "exploration");
     let col = std::sync::Mutex::new(Collected { lookups: vec![], histories: vec![], audits: vec![] });
     let plan = if args.quick() {
-        Plan { base_depth: 2, ext_depth: 2, chains: vec![(9, 0)], cache: CacheCfg::None, par: AzksParallelismConfig::disabled() }
+        Plan { base_depth: 2, ext_depth: 2, chains: vec![(9, 0)], shape_depth: 2, cache: CacheCfg::None, par: AzksParallelismConfig::disabled() }
     } else {
-        Plan { base_depth: 3, ext_depth: 2, chains: vec![(17, 0), (9, 1)], cache: CacheCfg::None, par: AzksParallelismConfig::disabled() }
+        Plan { base_depth: 3, ext_depth: 2, chains: vec![(17, 0), (9, 1)], shape_depth: 2, cache: CacheCfg::None, par: AzksParallelismConfig::disabled() }
     };
     let v = V19 { rep: &rep, col: &col };
     run_plan(args.threads, &plan, &v);
